@@ -235,3 +235,143 @@ def queue_monitor(task):
                 bound=f"{n} seeded operation sequences of 3-25 steps over add_event/add_events/get_event/get_current_events/len/empty/"
                       f"get_last_timestamp/JSON round trip, timestamps 0..12 with ties, all four event classes",
                 evaluations=evals, distinct_nontrivial=len(distinct), violations=viol, wall_s=round(time.time() - t0, 2))
+
+
+# ============================================================================ C19: stochastic space assignment
+def _sn_state(net):
+    occ = {k: (None if e._ev is None else e._ev._session_id) for k, e in net._EVSEs.items()}
+    return occ, list(net.waiting_queue.keys()), (net.swaps, net.never_charged, net.early_unplug)
+
+
+def _sn_invariant(net, arrived, departed):
+    occ, waiting, _ = _sn_state(net)
+    conn = [v for v in occ.values() if v is not None]
+    if len(conn) != len(set(conn)):
+        return f"an EV is connected to two stations: {occ}"
+    if set(conn) & set(waiting):
+        return f"an EV is both connected and waiting: {occ} {waiting}"
+    if len(waiting) != len(set(waiting)):
+        return f"duplicate in waiting queue {waiting}"
+    if waiting and any(v is None for v in occ.values()):
+        return f"an EV waits while a station is free: {occ} waiting {waiting}"
+    for k, e in net._EVSEs.items():
+        if e._ev is not None and e._ev.station_id != k:
+            return f"occupant of {k} believes it is at {e._ev.station_id}"
+    for sid, ev in net.waiting_queue.items():
+        if ev.station_id is not None or ev.session_id != sid:
+            return f"waiting EV {sid} has station {ev.station_id}"
+    here = set(conn) | set(waiting)
+    if here != set(arrived) - set(departed):
+        return f"present {sorted(here)} != arrived-departed {sorted(set(arrived) - set(departed))}"
+    return None
+
+
+def stochastic_monitor(task):
+    """Random plugin / unplug / charge-to-full / post_charging_update sequences on the real StochasticNetwork against the
+    first-come-first-served model; the free station chosen by random.choice is read back (so every seed is covered up to the bound)."""
+    import random as pyrandom
+    from acnportal import acnsim
+    from acnportal.contrib.acnsim.network.stochastic_network import StochasticNetwork
+    t0 = time.time()
+    prop, tier, seed0 = task["prop"], task.get("tier", "quick"), int(task.get("seed", 0))
+    n = 200 if tier == "quick" else 5000
+    evals = 0
+    viol = []
+    distinct = set()
+
+    def bad(tag, detail, seed):
+        if len(viol) < 5:
+            rp = write_replay(prop, f"fnmon_{tag}_{seed}.json", dict(kind="fn_monitor", monitor="stochastic_monitor", property=prop, clause=tag, detail=detail, seed=seed))
+            viol.append(dict(what=f"{tag}: {detail}"[:300], replay=rp))
+
+    def play(seed, rseed):
+        r = random.Random(seed)
+        pyrandom.seed(rseed)
+        early = r.random() < 0.5
+        net = StochasticNetwork(early_departure=early)
+        ns = r.randint(1, 3)
+        for k in range(ns):
+            net.register_evse(acnsim.EVSE(f"S{k}", max_rate=32), 208, 0)
+        evs, arrived, departed = {}, [], []
+        m_wait, m_sw, m_nc, m_eu = [], 0, 0, 0
+        trace = []
+        uid = 0
+        for step in range(r.randint(4, 30)):
+            present = [s for s in arrived if s not in departed]
+            op = r.choice(["plug", "plug", "unplug", "full", "post", "stale"])
+            if op == "plug":
+                uid += 1
+                ev = acnsim.EV(0, 100, 5.0, r.choice(["S0", "ZZ"]), f"s{uid}", acnsim.Battery(10, 0, 7))
+                evs[ev.session_id] = ev
+                free = [k for k, e in net._EVSEs.items() if e._ev is None]
+                net.plugin(ev)
+                arrived.append(ev.session_id)
+                if free:
+                    if ev.station_id not in free or net._EVSEs[ev.station_id]._ev is not ev:
+                        return "plugin_takes_a_free_station", f"free {free}, ev went to {ev.station_id}", trace
+                else:
+                    m_wait.append(ev.session_id)
+            elif op == "unplug" and present:
+                sid = r.choice(present)
+                ev = evs[sid]
+                was_wait = sid in m_wait
+                st_id = ev.station_id
+                net.unplug(ev.station_id, sid)
+                departed.append(sid)
+                if was_wait:
+                    m_wait.remove(sid); m_nc += 1
+                elif m_wait:
+                    head = m_wait.pop(0); m_sw += 1
+                    if net._EVSEs[st_id]._ev is not evs[head]:
+                        return "freed_station_goes_to_the_head_of_the_queue", f"station {st_id} got {None if net._EVSEs[st_id]._ev is None else net._EVSEs[st_id]._ev._session_id}, head was {head}", trace
+            elif op == "stale" and [d for d in departed if evs[d].station_id is not None]:
+                # the leftover Unplug event of an EV that was evicted early (its station id still names its old station)
+                sid = r.choice([d for d in departed if evs[d].station_id is not None])
+                before = _sn_state(net)
+                net.unplug(evs[sid].station_id, sid)
+                if _sn_state(net) != before:
+                    return "stale_unplug_changes_nothing", f"{before} -> {_sn_state(net)}", trace
+            elif op == "full":
+                for e in net._EVSEs.values():
+                    if e._ev is not None and r.random() < 0.5:
+                        e._ev._energy_delivered = e._ev._requested_energy
+            elif op == "post":
+                full = [e._ev for e in net._EVSEs.values() if e._ev is not None and e._ev.fully_charged]
+                net.post_charging_update()
+                if early:
+                    for ev in full:
+                        if m_wait:
+                            departed.append(ev._session_id)
+                            m_wait.pop(0); m_sw += 1; m_eu += 1
+            trace.append(op)
+            why = _sn_invariant(net, arrived, departed)
+            if why:
+                return "exactly_one_place_no_starvation", why, trace
+            occ, waiting, counters = _sn_state(net)
+            if waiting != m_wait:
+                return "waiting_is_first_come_first_served", f"real {waiting} model {m_wait}", trace
+            if counters != (m_sw, m_nc, m_eu):
+                return "counters", f"(swaps, never_charged, early_unplug) real {counters} model {(m_sw, m_nc, m_eu)}", trace
+        return None, _sn_state(net), trace
+
+    for k in range(n):
+        seed = seed0 * 100003 + k
+        evals += 1
+        try:
+            a = play(seed, 1)
+            b = play(seed, 1)
+        except Exception as e:
+            from .drivers import harness_fault
+            if harness_fault(e):
+                return dict(label=task.get("label", "stochastic_monitor"), error=f"seed {seed}: {type(e).__name__}: {e}")
+            bad("no_exception", f"{type(e).__name__}: {e}", seed)
+            continue
+        distinct.add(tuple(a[2]))
+        if a[0] is not None:
+            bad(a[0], a[1], seed)
+        elif a[1] != b[1]:
+            bad("reproducible_under_a_fixed_seed", f"{a[1]} vs {b[1]}", seed)
+    return dict(label=task.get("label", "stochastic_monitor"),
+                bound=f"{n} seeded operation sequences (4-30 steps) on 1-3 stations: plugin / unplug / stale unplug / charge-to-full / post_charging_update, "
+                      f"early_departure on and off, each played twice under the same random seed",
+                evaluations=evals, distinct_nontrivial=len(distinct), violations=viol, wall_s=round(time.time() - t0, 2))
